@@ -736,4 +736,58 @@ theorem checkCons_ok (j : J) (c : Cons) (what : String) (h : checkCons (some j) 
               exact ⟨hi, hu, hup, hlo⟩
             · simp at h
 
+
+/-- accepted async settings are the model's: on/off agree, and when on the threshold text is the
+    model's threshold and the timeout string is a Go duration of the model's number of 100 ms steps -/
+theorem checkAsync_ok (j : Option J) (a : Option Async) (h : checkAsync j a = .ok ()) :
+    (a = none → ∀ jj, j = some jj → getBool jj "enable" none = .ok false) ∧
+    (∀ aa, a = some aa → ∃ jj, j = some jj ∧ getBool jj "enable" none = .ok true ∧
+      ∃ t d ns, jj.get? "threshold" = some (.num t) ∧ jj.get? "timeout" = some (.str d) ∧
+        t = toString aa.threshold ∧ parseDurationNs (String.ofList (d.map Char.ofNat)) = some ns ∧
+        (ns + 99999999) / 100000000 = aa.timeout) := by
+  match j, a, h with
+  | none, none, _ => exact ⟨fun _ jj hj => (by cases hj), fun aa ha => (by cases ha)⟩
+  | none, some _, h => simp [checkAsync] at h
+  | some jj, none, h =>
+    refine ⟨fun _ j' hj => ?_, fun aa ha => (by cases ha)⟩
+    cases hj
+    simp only [checkAsync, bind, Except.bind] at h
+    split at h
+    · simp at h
+    · split at h
+      · simp at h
+      · rename_i en hen
+        simp only [expect] at h
+        split at h
+        · rename_i hc
+          simp only [Bool.not_eq_true'] at hc
+          rw [hen, hc]
+        · simp at h
+  | some jj, some aa, h =>
+    refine ⟨fun ha => (by cases ha), fun a' ha => ?_⟩
+    cases ha
+    refine ⟨jj, rfl, ?_⟩
+    simp only [checkAsync, bind, Except.bind] at h
+    split at h
+    · simp at h
+    · split at h
+      · simp at h
+      · rename_i en hen
+        cases en with
+        | false => simp [expect] at h
+        | true =>
+          simp only [expect, if_true] at h
+          split at h
+          · rename_i t d ht hd
+            by_cases htt : t = aa.threshold.repr
+            · simp [htt] at h
+              split at h
+              · rename_i ns hns
+                by_cases hto : (ns + 99999999) / 100000000 = aa.timeout
+                · exact ⟨hen, t, d, ns, ht, hd, htt, hns, hto⟩
+                · simp [hto] at h
+              · simp at h
+            · simp [htt] at h
+          · simp at h
+
 end Sod.Codec
